@@ -306,8 +306,8 @@ def mix_check(ctx, text, lines, blk):
     d = cmp_line("add_mix", a[1:12] + a[13:], b[1:12] + b[13:], 11)
     if d:
         return "bad", d
-    if a[12] != b[12]:
-        return "bad", f"add_mix error count: code {a[12]} model {b[12]}"
+    if (int(a[12]) > 0) != (int(b[12]) > 0):      # input_error is not a clean counter (error_msg sets it to 1 first)
+        return "bad", f"add_mix error state: code {a[12]} model {b[12]}"
     if not neg:     # the mixing constructor divides by the running water mass: only meaningful for positive fractions
         d = cmp_line("cxxSolution(mix)", got["CM"][2:], mod["CM"][2:], 12)
         if d:
@@ -406,7 +406,7 @@ def make_pair(rng, db, kind=None, fam=None):
     if kind != "mix":
         fams = [f for f in fams if not f.startswith("mix_")]
     fam = fam or rng.choice(fams)
-    sysm = G.System(rng, db, kind)
+    sysm = G.System(rng, db, kind, fam)
     seedp = rng.randrange(1 << 30)
     v0, v1, k, last_only = {}, {}, 1.0, False
     import random as _r
@@ -491,7 +491,7 @@ def run(ctx):
     # (i) convert_units correspondence
     n1 = 2500 if big else 160
     cases = [G.conv_case(rng, db) for _ in range(n1)]
-    blocks = parallel_ops(ctx, exe, dbpath, [f"conv {hx(t)} {hx(d['dspell'])}" for t, d in cases])
+    blocks = parallel_ops(ctx, exe, dbpath, [f"conv {hx(t)} {hx(d['default'])}" for t, d in cases])
     cstat = {"ok_first": 0, "ok_iter": 0, "skip": 0}
     for (text, desc), blk in zip(cases, blocks):
         evals += 1
@@ -586,7 +586,7 @@ def replay(ctx, data):
     db = G.Db(dbpath)
     kind = data.get("kind")
     if kind == "conv":
-        blk = parallel_ops(ctx, exe, dbpath, [f"conv {hx(data['input'])} {hx(data['desc']['dspell'])}"])[0]
+        blk = parallel_ops(ctx, exe, dbpath, [f"conv {hx(data['input'])} {hx(data['desc']['default'])}"])[0]
         st, det = conv_check(ctx, db, data["desc"], blk)
         print("replay:", st, det)
         if st == "bad":
